@@ -515,6 +515,68 @@ func (c *Ctx) c18Text() {
 			probs = append(probs, "the returned value at "+p.InstrPos(ret)+" is not derived from the escaped text through the allowed post-processing steps")
 		}
 	}
+	// nothing may undo the escaping: walk every value derived from the escaped text (in
+	// TextToHTML and in the callback that wraps URLs) and check each consumer
+	markup := func(s string) bool { return strings.ContainsAny(s, "<>\"'") }
+	checkDerived := func(start ssa.Value, where *ssa.Function) {
+		seen := map[ssa.Value]bool{start: true}
+		work := []ssa.Value{start}
+		for len(work) > 0 {
+			v := work[len(work)-1]
+			work = work[:len(work)-1]
+			if v.Referrers() == nil {
+				continue
+			}
+			for _, ref := range *v.Referrers() {
+				call, ok := ref.(*ssa.Call)
+				if !ok {
+					switch y := ref.(type) {
+					case *ssa.MakeInterface:
+						if !seen[y] {
+							seen[y] = true
+							work = append(work, y)
+						}
+					case *ssa.Store:
+						// variadic argument slot
+						if ia, ok := y.Addr.(*ssa.IndexAddr); ok {
+							if al, ok := ia.X.(*ssa.Alloc); ok {
+								for _, r3 := range *al.Referrers() {
+									if sl, ok := r3.(*ssa.Slice); ok && !seen[sl] {
+										seen[sl] = true
+										work = append(work, sl)
+									}
+								}
+							}
+						}
+					}
+					continue
+				}
+				name := eng.CalleeName(call.Common())
+				switch name {
+				case "strings.ReplaceAll", "strings.Replace":
+					newS, isC := eng.ConstString(call.Call.Args[2])
+					if call.Call.Args[0] != v {
+						continue
+					}
+					if !isC || markup(newS) {
+						probs = append(probs, "escaped text passes "+name+" at "+p.InstrPos(call)+" whose replacement re-introduces markup characters")
+					}
+				case "fmt.Sprintf", "(*regexp.Regexp).ReplaceAllStringFunc", "(*strings.Replacer).Replace", "builtin.len":
+				default:
+					probs = append(probs, "escaped text is passed to "+name+" at "+p.InstrPos(call)+" in "+shortFn(where)+": this can undo html.EscapeString (e.g. html.UnescapeString turns &#34; back into a quote inside the generated href)")
+					continue
+				}
+				if !seen[call] {
+					seen[call] = true
+					work = append(work, call)
+				}
+			}
+		}
+	}
+	if esc != nil {
+		checkDerived(esc, fn)
+	}
+	checkDerived(wrap.Params[0], wrap)
 	// WrapURL: constant format, arguments derived from its (already escaped) parameter
 	okWrap := false
 	eng.EachInstr(wrap, func(in ssa.Instruction) {
